@@ -112,6 +112,11 @@ def check(label: str, cond, info: Any = None) -> None:
             inside = False
         if inside:
             raise Tolerated(label, kf)
+    if callable(info):
+        try:
+            info = info()
+        except Exception as e:  # noqa
+            info = "<info unavailable: %s>" % type(e).__name__
     raise CheckFailed(label, info)
 
 
@@ -406,7 +411,12 @@ def explore(ob: Obligation, fixed: dict, budget_s: float, known: list, seed: int
                         if isinstance(exc, Tolerated):
                             tolerated = exc
                         elif isinstance(exc, CheckFailed):
-                            failure = (exc.label, exc.info, "")
+                            try:
+                                with ResumedTracing():
+                                    inf = deep_realize(exc.info)
+                            except Exception:  # noqa
+                                inf = "<unrealisable info>"
+                            failure = (exc.label, inf, "")
                         else:
                             tb = "".join(traceback.format_exception(type(exc), exc, exc.__traceback__, limit=14))
                             failure = ("unexpected-exception", "%s: %s" % (type(exc).__name__, exc), tb)
@@ -431,6 +441,8 @@ def explore(ob: Obligation, fixed: dict, budget_s: float, known: list, seed: int
                             res.known_hits.append({"id": tolerated.finding.get("id"), "label": tolerated.label, "args": _jsonable(full)})
                         status = VerificationStatus.CONFIRMED
                         res.completed += 1
+                        for c in _STATE.covers:
+                            res.covers[c] = res.covers.get(c, 0) + 1
                     else:
                         status = VerificationStatus.CONFIRMED
                         res.completed += 1
